@@ -193,9 +193,15 @@ func Apply(op ref.Op, in []tensor.Tensor) (tensor.Tensor, error) {
 	case "Transpose":
 		return x.Transpose()
 	case "Reshape":
-		return x.Reshape(ref.CopyShape(op.Shape))
+		sh := ref.CopyShape(op.Shape)
+		r, err := x.Reshape(sh)
+		mustUnchangedInts("Reshape", sh, op.Shape)
+		return r, err
 	case "Broadcast":
-		return x.Broadcast(ref.CopyShape(op.Shape))
+		sh := ref.CopyShape(op.Shape)
+		r, err := x.Broadcast(sh)
+		mustUnchangedInts("Broadcast", sh, op.Shape)
+		return r, err
 	case "UnSqueeze":
 		return x.UnSqueeze(op.Dim)
 	case "Squeeze":
@@ -217,11 +223,24 @@ func Apply(op ref.Op, in []tensor.Tensor) (tensor.Tensor, error) {
 	case "MeanAlong":
 		return x.MeanAlong(op.Dim)
 	case "Slice":
-		return x.Slice(Ranges(op.Index))
+		ix := Ranges(op.Index)
+		r, err := x.Slice(ix)
+		mustUnchangedRanges("Slice", ix, op.Index)
+		return r, err
 	case "Patch":
-		return x.Patch(Ranges(op.Index), in[1])
+		ix := Ranges(op.Index)
+		r, err := x.Patch(ix, in[1])
+		mustUnchangedRanges("Patch", ix, op.Index)
+		return r, err
 	case "Concat":
-		return tensor.Concat(append([]tensor.Tensor(nil), in...), op.Dim)
+		ts := append([]tensor.Tensor(nil), in...)
+		r, err := tensor.Concat(ts, op.Dim)
+		for i := range ts {
+			if ts[i] != in[i] {
+				panic(fmt.Sprintf("Concat modified the caller's tensor list at position %d", i))
+			}
+		}
+		return r, err
 	case "Relu":
 		o, _ := cached(op.String(), func() (*activations.Relu, error) { return activations.NewRelu(), nil })
 		return o.Forward(x)
@@ -266,6 +285,24 @@ func Apply(op ref.Op, in []tensor.Tensor) (tensor.Tensor, error) {
 		return fc.Forward(x)
 	}
 	panic("rt.Apply: unknown op " + op.K)
+}
+
+// The library must not write into slices the caller passes in (a {0,0} range
+// must still mean "whole dimension" when the caller reuses its index).
+func mustUnchangedInts(what string, passed, orig []int) {
+	for i := range orig {
+		if passed[i] != orig[i] {
+			panic(fmt.Sprintf("%s modified the caller's slice: passed %v, now %v", what, orig, passed))
+		}
+	}
+}
+
+func mustUnchangedRanges(what string, passed []tensor.Range, orig []ref.Range) {
+	for i := range orig {
+		if passed[i].From != orig[i].From || passed[i].To != orig[i].To {
+			panic(fmt.Sprintf("%s modified the caller's index slice: passed %v, now %v", what, orig, passed))
+		}
+	}
 }
 
 // Catch runs f and returns the recovered panic value, if any.
